@@ -525,6 +525,21 @@ def setitem(interp, st, base, idx, v):
                 old = st.heap[a.bufid][p]
                 st.wbuf(a.bufid, p)[p] = interp.A.ite(m, new, old)
         return
+    if isinstance(idx, Arr) and idx.dtype in INT_RANGES and a.ndim == 1:
+        ivals = interp.arr_values(st, idx)
+        if isinstance(v, CArr):
+            v = carr_to_arr(interp, st, v)
+        if isinstance(v, Arr):
+            src = interp.arr_values(st, v)
+            if len(src) == 1:
+                src = src * len(ivals)
+            if len(src) != len(ivals):
+                raise In.Raised("ValueError", "fancy assignment size mismatch")
+        else:
+            src = [v] * len(ivals)
+        for iv, x in zip(ivals, src):
+            setitem(interp, st, a, iv, x)
+        return
     if not isinstance(idx, tuple):
         idx = (idx,)
     if any(x is Ellipsis for x in idx):
@@ -899,6 +914,10 @@ def _max(interp, st, a, **kw):
     return r
 
 
+def _argsort_m(interp, st, a, *args, **kw):
+    return np_argsort(interp, st, a, *args, **kw)
+
+
 def _searchsorted_m(interp, st, a, v, side="left", **kw):
     return np_searchsorted(interp, st, a, v, side)
 
@@ -918,7 +937,7 @@ def _sort_any(interp, st, a, **kw):
 
 ARRAY_METHODS = {
     "copy": _copy, "flatten": _flatten, "ravel": _ravel, "reshape": _reshape, "sum": _sum, "any": _any, "all": _all,
-    "mean": _mean, "astype": _astype, "sort": _sort_any, "searchsorted": _searchsorted_m, "item": _item, "tolist": _tolist, "min": _min, "max": _max,
+    "mean": _mean, "astype": _astype, "sort": _sort_any, "searchsorted": _searchsorted_m, "argsort": _argsort_m, "item": _item, "tolist": _tolist, "min": _min, "max": _max,
 }
 
 
@@ -1061,6 +1080,24 @@ def np_sort(interp, st, a, **kw):
         raise Unsupported("sort of compacted array")
     srt = sorted_terms(interp, st, vals) if any(is_sym(v) for v in vals) else sorted(vals)
     return interp.new_array(st, (len(srt),), a.dtype if isinstance(a, Arr) else "float64", cells=srt)
+
+
+@native
+def np_argsort(interp, st, a, axis=-1, kind=None, **kw):
+    """Indices that sort a 1-d array of concrete keys. NumPy's and Numba's default kind (quicksort) is NOT stable: the order of
+    equal keys is unspecified. interp.unstable_ties selects one admissible outcome ("stable" / "reversed"); a harness that sees
+    interp.unstable_sort_used repeats its run with the other one."""
+    vals, mask = _values_of(interp, st, a)
+    if mask is not None or any(is_sym(v) for v in vals):
+        raise Unsupported("argsort of symbolic keys")
+    stable = kind in ("stable", "mergesort")
+    n = len(vals)
+    order = sorted(range(n), key=lambda i: vals[i])
+    if not stable and len(set(vals)) < n:
+        interp.unstable_sort_used = True
+        if getattr(interp, "unstable_ties", "stable") == "reversed":
+            order = sorted(range(n), key=lambda i: (vals[i], -i))
+    return interp.new_array(st, (n,), "int64", cells=order)
 
 
 @native
@@ -1702,7 +1739,7 @@ LIB = {
     "numpy.sum": np_sum, "numpy.abs": np_abs, "numpy.round": np_round, "numpy.isnan": np_isnan, "numpy.isinf": np_isinf,
     "numpy.isfinite": np_isfinite, "numpy.cos": _np_ew("cos"), "numpy.sqrt": _np_ew("sqrt"), "numpy.log": _np_ew("log"),
     "numpy.median": np_median, "numpy.nanmedian": np_nanmedian, "numpy.unique": np_unique, "numpy.sort": np_sort, "numpy.where": np_where,
-    "numpy.any": np_any, "numpy.all": np_all, "numpy.diff": np_diff, "numpy.searchsorted": np_searchsorted,
+    "numpy.any": np_any, "numpy.all": np_all, "numpy.diff": np_diff, "numpy.searchsorted": np_searchsorted, "numpy.argsort": np_argsort,
     "numpy.log10": np_log10, "numpy.minimum": np_minimum, "numpy.maximum": np_maximum, "numpy.dtype": np_dtype, "numpy.datetime64": np_datetime64, "pandas.unique": pd_unique,
     "numba.prange": numba_prange,
     "scipy.special.digamma": _special("digamma", 1), "scipy.special.gammainc": _special("gammainc", 2),
